@@ -1,10 +1,12 @@
 import STProofs.Slots
 import STProofs.PPolyCache
+import STProofs.PPolyCacheAny
 /-! # C10 — results depend on the latest inputs only: slot access summaries + stateless specification model
 
 The specification model of the spline classes is a pure function of the latest inputs (definitional).  The content
 proved here is about the *objects*: every cache slot a query reads was written by the latest update
 (`no_stale_read`, `reads_latest` over arbitrary histories), query workspaces are (re)initialised by the query itself
 (`queries_self_contained`), the optimizer workspace is fully rewritten per evaluation (`ws_no_stale_read`).
-Bit-identity of a reused object with a fresh one is a property of the compiled code: explored by the correspondence
+For the piecewise-polynomial object bit-identity of a reused object with a fresh one is a theorem about the IEEE-double
+instance of the model (`AnyNum.eval_after_history_float`); for the spline classes it is a property of the compiled code: explored by the correspondence
 check (C++ reused vs. C++ fresh, bitwise), not proved. -/
